@@ -4,7 +4,7 @@ ENTRY = dict(
          "through ApplyPreset on all 2^16 cipher-suite values; 50*n draws each of GetGREASEVersion / GetGREASEID with crypto/rand.Reader "
          "replaced by a logging deterministic reader (the crypto/rand.Int result is recomputed from the consumed bytes and given to the "
          "model) plus a scripted corpus (draw 1 = the F-04 witness, 0, 0x05050505, max-1, entropy failure); n/4 marshaled transport-parameter "
-         "lists with a GREASE parameter (override valid/invalid/unset) and a VersionInformation with 0..4 random available versions; every "
+         "lists with a GREASE parameter (override valid/invalid/unset) and a VersionInformation with 0..4 random available versions; IsGREASEID, ID() and Marshal with IdOverride on boundary ids (0..96, +-70 around 2^14, 2^30, 2^32, 2^62, 2^63, 2^64); every "
          "listed parrot: n connections through the ClientHelloID path with a recording Config.Rand (the unique 10-byte read = GREASE seed), "
          "max(2,n/66) through UTLSIdToSpec+ApplyPreset and as many through a Fingerprinter copy of its wire hello (GREASE view of spec and of the parsed "
          "wire hello compared with the model position by position); n/2 randomized ClientHelloIDs; 4*max(2,n/66)+n/4 runner-generated specs with "
